@@ -329,7 +329,7 @@ func init() {
 		Prop:  "C10",
 		Level: "exploration",
 		Rule: "(S) real-time stress rounds: real Client <-> real Server over an instrumented channel pair, 16-32 caller goroutines x random {Call, Batch, Notify, cancelled Call, push-issuing Call, CancelRequest}, connection ended mid-traffic by Close / Stop / both, Gosched at every hook; " +
-			"(B) scripted bubble scenarios (batches completing together, pushes during delivery, stop racing deliveries and parse errors, callback reply racing stop; client sends racing callback replies and Close) with every single hook visit parked. " +
+			"(B) scripted bubble scenarios (batches completing together, pushes during delivery, stop racing deliveries and parse errors, callback reply racing stop, the third Recv failing with {plain error, io.EOF, wrapped channel.ErrClosed, net.ErrClosed, wrapped net.ErrClosed}; client sends racing callback replies and Close) with every single hook visit parked. " +
 			"distinct_nontrivial = distinct (round seed, ending mode) and (scenario, delay set) executions in which both ends performed at least one Send",
 		Assumptions: []string{
 			"overlap is detected when the second operation enters while the first is inside the channel (a Gosched spin widens the window); the race detector independently reports unsynchronised use",
